@@ -15,5 +15,9 @@ if (d / "confirm.json").exists():
     meta["confirmed_by_lead"] = json.loads((d / "confirm.json").read_text())
     meta["what_was_run"] = "tools/confirm_seed.sh: scratch worktree of /repo HEAD; demo.py before the patch (exit 0), after `git apply patch.diff` (exit 1), full pytest suite with the patch (no baseline test fails)"
 if len(sys.argv) > 3:
-    meta.setdefault("checks", {})[sys.argv[2]] = " ".join(sys.argv[3:])
+    new = " ".join(sys.argv[3:])
+    old = meta.setdefault("checks", {}).get(sys.argv[2])
+    if old and old != new:
+        meta.setdefault("earlier_results", {}).setdefault(sys.argv[2], []).append(old)
+    meta["checks"][sys.argv[2]] = new
 meta_p.write_text(json.dumps(meta, indent=1) + "\n")
